@@ -200,6 +200,23 @@ def stepLine (d : DS) (ws : List String) : DS × String :=
         (d, s!"race order={order} {showReply d r1} ; {showReply d r2} || {dump d}")
       | none => (d, "bad-op")
     | _ => (d, "bad-op")
+  | "par" :: _gate :: rest =>
+    -- two requests in flight, A parked inside a store call while B is issued: every request of the (fixed)
+    -- code is one critical section, so B waits — A, then B.  Names and `@` generations of BOTH requests are
+    -- resolved before either runs (as the harness does).
+    let (aw, bw) := splitBar rest
+    match parseOp d aw with
+    | some (d1, opA, tokA) =>
+      match parseOp d1 bw with
+      | some (d2, opB, tokB) =>
+        let (d3, rA) := apply d2 opA
+        let d3 := noteJoin d3 tokA rA
+        let sA := showReply d3 rA
+        let (d4, rB) := apply d3 opB
+        let d4 := noteJoin d4 tokB rB
+        (d4, s!"par order=seq {sA} ; {showReply d4 rB} || {dump d4}")
+      | none => (d, "bad-op")
+    | none => (d, "bad-op")
   | _ =>
     match parseOp d ws with
     | some (d, op, tok) =>
